@@ -44,9 +44,61 @@ def _sfnt_bytes(data, idx):
     return data
 
 
+def sparse_gvar_font():
+    """TrueType VF (wght, wdth) whose gvar tuples are written by hand with EVERY None-mask of the
+    points of two shapes: a square (pairs of points share x or y: the 'same coordinate, different
+    delta' branch of delta inference) and a two-contour shape; two tuples per glyph, so that one is
+    applied on top of the other.  Nothing is optimised away by the library."""
+    from fontTools.fontBuilder import FontBuilder
+    from fontTools.pens.ttGlyphPen import TTGlyphPen
+    from fontTools.ttLib.tables.TupleVariation import TupleVariation
+
+    shapes = {
+        "sq": [[(0, 0), (100, 0), (100, 100), (0, 100)]],
+        "two": [[(0, 0), (60, 0), (200, 0), (300, 100)], [(20, 20), (40, 20), (30, 60)]],
+    }
+    names, glyphs, variations = [".notdef"], {}, {}
+    pen = TTGlyphPen(None)
+    glyphs[".notdef"] = pen.glyph()
+    for sname, contours in shapes.items():
+        npts = sum(len(c) for c in contours)
+        for mask in range(1, 1 << npts):
+            if npts > 4 and bin(mask).count("1") not in (1, 2, npts - 1, npts) and mask % 5:
+                continue
+            gn = "%s%d" % (sname, mask)
+            names.append(gn)
+            pen = TTGlyphPen(None)
+            for c in contours:
+                pen.moveTo(c[0])
+                for pt in c[1:]:
+                    pen.lineTo(pt)
+                pen.closePath()
+            glyphs[gn] = pen.glyph()
+            c1 = [((7 * i + 11) % 40 - 15, (5 * i + 3) % 30 - 10) if mask >> i & 1 else None for i in range(npts)] + [None] * 4
+            m2 = ((mask << 1) | (mask >> (npts - 1))) & ((1 << npts) - 1)
+            c2 = [((3 * i + 2) % 25 - 8, (9 * i + 4) % 35 - 20) if m2 >> i & 1 else None for i in range(npts)] + [(0, 0), (13, 0), (0, 0), (0, 0)]
+            variations[gn] = [TupleVariation({"wght": (0.0, 1.0, 1.0)}, c1), TupleVariation({"wdth": (-1.0, -1.0, 0.0)}, c2),
+                              TupleVariation({"wght": (0.0, 1.0, 1.0), "wdth": (-1.0, -1.0, 0.0)}, c1[:npts][::-1] + [None] * 4)]
+    fb = FontBuilder(1000, isTTF=True)
+    fb.setupGlyphOrder(names)
+    fb.setupCharacterMap({0x4E00 + i: n for i, n in enumerate(names[1:])})
+    fb.setupGlyf(glyphs)
+    fb.setupHorizontalMetrics({n: (600, getattr(glyphs[n], "xMin", 0)) for n in names})
+    fb.setupHorizontalHeader(ascent=800, descent=-200)
+    fb.setupNameTable({"familyName": "Sparse", "styleName": "Regular"})
+    fb.setupOS2()
+    fb.setupFvar([("wght", 100, 400, 900, "Weight"), ("wdth", 50, 100, 200, "Width")], [])
+    fb.setupGvar(variations)
+    fb.setupPost()
+    buf = io.BytesIO()
+    fb.font.save(buf)
+    return buf.getvalue()
+
+
 def load_fonts():
     if _FONTS:
         return
+    _FONTS["tiny:sparse-gvar"] = (sparse_gvar_font(), 0)
     for name, data, idx in corpus.binary_faces():
         if any(x in name for x in EXCLUDE):
             continue
